@@ -124,14 +124,14 @@ fn run_op<P: G>(op: &str, kept: &mut Vec<RangeParameters<P>>) -> Vec<u8> {
         "proveA" | "proveB" => {
             let cfg = if op == "proveA" { cfg_a } else { cfg_b };
             let wit = Wit::default_for(&cfg);
-            let built = build::<P>(&cfg, &wit).unwrap();
-            let proof = lib_prove(&built, &CTX_A, &mut HRng::chacha(1)).unwrap();
+            let built = build::<P>(&cfg, &wit).honest();
+            let proof = lib_prove(&built, &CTX_A, &mut HRng::chacha(1)).honest();
             P::to_bytes(&proof)
         },
         "prove-bad-witness" => {
             // the statement of proveA with a witness that does not open its commitment
             let wit = Wit::default_for(&cfg_a);
-            let built = build::<P>(&cfg_a, &wit).unwrap();
+            let built = build::<P>(&cfg_a, &wit).honest();
             let mut bad = wit.clone();
             bad.blindings[0][0] += Scalar::ONE;
             let witness = witness_for(&bad).unwrap();
@@ -143,8 +143,8 @@ fn run_op<P: G>(op: &str, kept: &mut Vec<RangeParameters<P>>) -> Vec<u8> {
         },
         "verify-valid" | "verify-invalid" => {
             let wit = Wit::default_for(&cfg_b);
-            let built = build::<P>(&cfg_b, &wit).unwrap();
-            let proof = lib_prove(&built, &CTX_A, &mut HRng::chacha(2)).unwrap();
+            let built = build::<P>(&cfg_b, &wit).honest();
+            let proof = lib_prove(&built, &CTX_A, &mut HRng::chacha(2)).honest();
             let st = if op == "verify-valid" {
                 built.statement.clone()
             } else {
@@ -157,25 +157,25 @@ fn run_op<P: G>(op: &str, kept: &mut Vec<RangeParameters<P>>) -> Vec<u8> {
         "seeded-recover" => {
             let mut wit = Wit::default_for(&cfg_a);
             wit.seed = Some(seed_scalar(1));
-            let built = build::<P>(&cfg_a, &wit).unwrap();
-            let proof = lib_prove(&built, &CTX_A, &mut HRng::chacha(3)).unwrap();
+            let built = build::<P>(&cfg_a, &wit).honest();
+            let proof = lib_prove(&built, &CTX_A, &mut HRng::chacha(3)).honest();
             verify_bytes(&[built.statement.clone()], &[proof], &[CTX_A], VerifyAction::RecoverAndVerify)
         },
         "batch2" => {
             let wa = Wit::default_for(&cfg_a);
-            let ba = build::<P>(&cfg_a, &wa).unwrap();
+            let ba = build::<P>(&cfg_a, &wa).honest();
             let cfg_c = Cfg::new(2, 2, 2, 1);
             let wc = Wit::default_for(&cfg_c);
-            let bc = build::<P>(&cfg_c, &wc).unwrap();
-            let pa = lib_prove(&ba, &CTX_A, &mut HRng::chacha(4)).unwrap();
-            let pc = lib_prove(&bc, &contexts()[3], &mut HRng::chacha(5)).unwrap();
+            let bc = build::<P>(&cfg_c, &wc).honest();
+            let pa = lib_prove(&ba, &CTX_A, &mut HRng::chacha(4)).honest();
+            let pc = lib_prove(&bc, &contexts()[3], &mut HRng::chacha(5)).honest();
             verify_bytes(&[ba.statement.clone(), bc.statement.clone()], &[pa, pc], &[CTX_A, contexts()[3]], VerifyAction::VerifyOnly)
         },
         "batch-malformed2" | "batch-undecodable2" => {
             // a batch that is abandoned half way: the second member has the wrong round count / an undecodable point
             let wa = Wit::default_for(&cfg_a);
-            let ba = build::<P>(&cfg_a, &wa).unwrap();
-            let pa = lib_prove(&ba, &CTX_A, &mut HRng::chacha(4)).unwrap();
+            let ba = build::<P>(&cfg_a, &wa).honest();
+            let pa = lib_prove(&ba, &CTX_A, &mut HRng::chacha(4)).honest();
             let mut rp = ref_proof_of(&pa).unwrap();
             if op == "batch-malformed2" {
                 let (l, r) = (rp.l[0], rp.r[0]);
@@ -534,8 +534,8 @@ pub fn child_bodies(name: &str) -> Option<Vec<Body>> {
             let cfg = Cfg::new(2, 1, 1, 2);
             let wit = Wit::default_for(&cfg);
             let pc = create_pedersen_gens_with_extension_degree(ext(2));
-            let built = build_with_pc::<RistrettoPoint>(&cfg, &wit, pc).unwrap();
-            let proof = lib_prove(&built, &CTX_A, &mut HRng::chacha(8)).unwrap();
+            let built = build_with_pc::<RistrettoPoint>(&cfg, &wit, pc).honest();
+            let proof = lib_prove(&built, &CTX_A, &mut HRng::chacha(8)).honest();
             RistrettoPoint::to_bytes(&proof)
         })
     };
@@ -544,7 +544,7 @@ pub fn child_bodies(name: &str) -> Option<Vec<Body>> {
         Box::new(move || {
             let cfg = Cfg::new(n, 1, 1, 1);
             let pc = create_pedersen_gens_with_extension_degree(ext(1));
-            let built = build_with_pc::<RistrettoPoint>(&cfg, &wit, pc).unwrap();
+            let built = build_with_pc::<RistrettoPoint>(&cfg, &wit, pc).honest();
             let proof = RistrettoPoint::from_bytes(&bytes).unwrap();
             verify_bytes(&[built.statement.clone()], &[proof], &[CTX_A], VerifyAction::VerifyOnly)
         })
@@ -554,7 +554,7 @@ pub fn child_bodies(name: &str) -> Option<Vec<Body>> {
         Box::new(move || {
             let cfg = Cfg::new(2, 1, 1, 1);
             let pc = create_pedersen_gens_with_extension_degree(ext(1));
-            let built = build_with_pc::<RistrettoPoint>(&cfg, &wit, pc).unwrap();
+            let built = build_with_pc::<RistrettoPoint>(&cfg, &wit, pc).honest();
             let proof = RistrettoPoint::from_bytes(&bytes).unwrap();
             verify_bytes(&[built.statement.clone()], &[proof], &[CTX_A], VerifyAction::VerifyOnly)
         })
